@@ -3,9 +3,63 @@
 from . import common, render
 
 
+def simplify_changes_stroke(adoc):
+    """asked of the engine, through the guarded hook in svg_pathops.stroke(): did Skia's Simplify change the
+    region covered by the outline the stroker produced?  (It must not: simplification is supposed to
+    remove overlaps only.)  Compared on a 1/8 grid; a gross difference only (flattening noise is a
+    handful of points along edges)."""
+    from picosvg import _verif
+    from . import doc as D
+    pairs = []
+
+    def sink(name, f):
+        if name == "stroke_simplified":
+            pairs.append((f["raw"], f["result"]))
+
+    _verif.install(sink)
+    try:
+        D.convert(D.concretise(adoc))
+    finally:
+        _verif.install(None)
+
+    def polys(cmds):
+        return D.flatten(" ".join(c + " ".join(repr(float(a)) for a in args) for c, args in cmds))
+
+    def wind(pts, x, y):
+        w = 0
+        for (x0, y0), (x1, y1) in zip(pts, pts[1:] + pts[:1]):
+            if (y0 <= y) != (y1 <= y) and x0 + (y - y0) / (y1 - y0) * (x1 - x0) > x:
+                w += 1 if y1 > y0 else -1
+        return w
+
+    for raw, res in pairs:
+        try:
+            pr, ps = polys(raw), polys(res)
+        except Exception:  # noqa
+            continue
+        xs = [p[0] for pl in pr + ps for p in pl]
+        ys = [p[1] for pl in pr + ps for p in pl]
+        if not xs:
+            continue
+        x0, x1, y0, y1 = int(min(xs)) - 1, int(max(xs)) + 2, int(min(ys)) - 1, int(max(ys)) + 2
+        if (x1 - x0) * (y1 - y0) > 4000:
+            continue
+        diff = 0
+        for i in range(x0 * 8, x1 * 8):
+            for j in range(y0 * 8, y1 * 8):
+                x, y = i / 8 + 0.031, j / 8 + 0.077
+                if (sum(wind(pl, x, y) for pl in pr) != 0) != (sum(wind(pl, x, y) for pl in ps) != 0):
+                    diff += 1
+        if diff > 60:
+            return True
+    return False
+
+
 def classify(rec, v):
     if render.use_target_value_lost(rec["doc"]):
         return "C04/use-target-explicit-inherited-value-lost"
+    if simplify_changes_stroke(rec["doc"]):
+        return "C04/engine-silently-wrong/simplify-changes-the-stroke-outline"
     return "C04/" + v.split(":", 1)[1].split("@")[0]
 
 
